@@ -6,7 +6,7 @@ CONSTANTS
   MaxZero = 1
   GrowSet = {1, 2, 5}
   MaxItems = 3
-  Alpha <- AlphaBuf
+  Alpha <- AlphaBufSmall
   MaxPieces = 0
   Export = FALSE
 VIEW View
